@@ -9,7 +9,7 @@
 //        contracted functions; Verus checks the REAL `requires` at each call (br_wf, `is Value`, br_set_same of two sets built
 //        SEPARATELY -- different String objects, same contents --, the two u32 sums, min >= 1, length >= 1, the length order of
 //        pad_list).  Neither the restated Clone/PartialEq (trusted) nor any shim function is used to BUILD an argument.
-//        The tail of the client also calls the TRUSTED items (@nobody merge_bricks_with_bound_one / all_bricks_are_top, restated
+//        The tail of the client also calls merge_bricks_with_bound_one and the TRUSTED items (@nobody all_bricks_are_top, restated
 //        clone / ==) on the same values: the negative control (`assert(false)` as last statement must fail) then covers their
 //        `ensures` together with everything the contracted functions returned.
 //   Nothing stays conditional.
@@ -110,7 +110,7 @@ pub fn verif_sat_bricks_chain()
     let _e = BricksDomain::create_empty_string_domain();             // br_ord_ok
 
     // ---- the TRUSTED items of the unit, called on the same values so that the negative control (assert(false) here must fail)
-    // also covers their `ensures`: @nobody merge_bricks_with_bound_one / all_bricks_are_top, the restated derives (clone, ==)
+    // also covers their `ensures`: merge_bricks_with_bound_one (now a verified body; its new `requires br_ord_ok()` is checked here), @nobody all_bricks_are_top, the restated derives (clone, ==)
     let b11 = verif_sat_bricks_brick(1, 1, false);
     let _b1 = b11.merge_bricks_with_bound_one(verif_sat_bricks_brick(1, 1, true));
     let _at = BricksDomain::all_bricks_are_top(&_u2);
